@@ -374,6 +374,9 @@ FIXED_CLI = [
     ('int a = -0x100000000u > 0; long b = 0x7fffffffffffffffu / -1; long c = 040000000000u % -3; long d = -0x100000000u >> 60;\n'
      'int e = -0b100000000000000000000000000000000U > 0; int f = -4294967296u > 0; long g = -0x100000000 >> 60; int h = -0x100000000 > 0;\n',
      [('a', 4, 1), ('b', 8, 0), ('c', 8, 4294967296), ('d', 8, 15), ('e', 4, 1), ('f', 4, 1), ('g', 8, -1), ('h', 4, 0)]),
+    # the type of a shift is the promoted LEFT operand's, whatever the type of the count
+    ('long a = -8 >> 1u; long b = -1L >> 63ull; int c = sizeof(1 << 2ul); long d = -16 >> 2ul; int e = sizeof(1 >> 1ll); long f = (-1 >> 1u) < 0; long g = 1u << 31l; int h = sizeof((char)1 << 1ul);\n',
+     [('a', 8, -4), ('b', 8, -1), ('c', 4, 4), ('d', 8, -4), ('e', 4, 4), ('f', 8, 1), ('g', 8, 2147483648), ('h', 4, 4)]),
     # arithmetic right shift of negative constants of every signed width
     ('long a = -8L >> 1; long long b = (-0x7fffffffffffffffLL - 1) >> 62; int c = -8 >> 1; long d = -1L >> 63; long e = (long)-16 >> 2 >> 1; int f = (-0x7fffffff - 1) >> 31;\n'
      'char g[(-8L >> 1) + 5]; long h = sizeof g; enum { SK = -64L >> 4 }; long i = SK;\n',
